@@ -75,7 +75,7 @@ def run(chk: Check):
             q, nrm = linalg_utils.qr_vmap(jnp.array(ups))
             routes.append(("qr_vmap", np.asarray(q), None, np.asarray(nrm), None))
             P = propagation.propagator_restricted(n_walkers=len(ups))
-            q2 = np.asarray(P.orthonormalize_walkers({"walkers": jnp.array(ups)})["walkers"])
+            q2 = np.asarray(P.orthonormalize_walkers({"walkers": jnp.array(ups), "overlaps": jnp.ones(len(ups)) + 0.0j, "weights": jnp.ones(len(ups))})["walkers"])
             routes.append(("restricted.orthonormalize_walkers", q2, None, None, None))
         else:
             q, nrm = linalg_utils.qr_vmap_uhf([jnp.array(ups), jnp.array(dns)])
@@ -84,7 +84,7 @@ def run(chk: Check):
             pd, nr2 = P._orthogonalize_walkers({"walkers": [jnp.array(ups), jnp.array(dns)]})
             routes.append(("unrestricted._orthogonalize_walkers", np.asarray(pd["walkers"][0]), np.asarray(pd["walkers"][1]),
                            np.asarray(nr2[0]), np.asarray(nr2[1])))
-            q3 = P.orthonormalize_walkers({"walkers": [jnp.array(ups), jnp.array(dns)]})["walkers"]
+            q3 = P.orthonormalize_walkers({"walkers": [jnp.array(ups), jnp.array(dns)], "overlaps": jnp.ones(len(ups)) + 0.0j, "weights": jnp.ones(len(ups))})["walkers"]
             routes.append(("unrestricted.orthonormalize_walkers", np.asarray(q3[0]), np.asarray(q3[1]), None, None))
         for name, qu, qd, nu_f, nd_f in routes:
             site = f"qr:{name}"
@@ -127,6 +127,29 @@ def run(chk: Check):
                 wfcheck.compare(chk, I, ex, got, what, tol_for(I["kind"]) if what == "e" else wfcheck.TOL64,
                                 f"qr-state:{name}", tag=f"/after {name}")
         chk.traces += 1
+    # ------------------------------------------------------------------ orthonormalize_walkers and the stored overlaps
+    # the propagators' orthonormalize_walkers may leave prop_data["overlaps"] alone (the sampler recomputes them) - but IF it
+    # touches them, the stored value must be the overlap of the walkers it returns; checked where a shortcut is tempting
+    # and wrong: restricted walkers with an open-shell trial (the down determinant sees only the leading n_dn columns)
+    from .. import runlevel as _rl0
+    for (nelec, wt) in (((3, 2), "rhf"), ((3, 1), "rhf"), ((2, 2), "rhf"), ((3, 2), "uhf")):
+        sysd = _rl0.make_system(np.random.default_rng(1340 + chk.seed + nelec[0] * 10 + nelec[1]), norb=5, nelec=nelec, nchol=2,
+                                trial_kind="uhf" if nelec[0] != nelec[1] or wt == "uhf" else "rhf", walker_type=wt, n_walkers=3,
+                                dt=0.05, proxied=False)
+        trial, prop = sysd["trial"], sysd["prop"]
+        r0_ = np.random.default_rng(1341 + chk.seed)
+        mk_ = lambda ne: jnp.array(r0_.normal(size=(3, 5, ne)) + 1j * r0_.normal(size=(3, 5, ne)))
+        wk0 = mk_(nelec[0]) if wt == "rhf" else [mk_(nelec[0]), mk_(nelec[1])]
+        ov_in = trial.calc_overlap(wk0, sysd["wave_data"])
+        out = prop.orthonormalize_walkers({"walkers": wk0, "overlaps": ov_in, "weights": jnp.ones(3)})
+        chk.case(("orthonormalize-stored-overlaps", nelec, wt))
+        chk.traces += 1
+        if "overlaps" in out and not np.array_equal(np.asarray(out["overlaps"]), np.asarray(ov_in)):
+            ov_q = np.asarray(trial.calc_overlap(out["walkers"], sysd["wave_data"]))
+            if np.max(np.abs(np.asarray(out["overlaps"]) - ov_q) / np.abs(ov_q)) > 1e-9:
+                chk.violation(f"qr-state:orthonormalize_walkers:stored-overlaps:{wt}", f"{wt} walkers, nelec {nelec}: orthonormalize_walkers "
+                              f"changed the stored overlaps to {np.asarray(out['overlaps']).tolist()}, the returned walkers have "
+                              f"{ov_q.tolist()}", {"nelec": list(nelec), "walker_type": wt})
     # ------------------------------------------------------------------ free projection accumulates the norm factors
     # propagate_free re-orthonormalises after every step and multiplies the triangular-factor determinants into
     # prop_data["norms"]: the state it represents afterwards, overlap(Q) x norms_out, must be the state it propagated,
@@ -229,7 +252,7 @@ def run(chk: Check):
             Au, Ad = illc(nu), illc(nd)
             for name, fn in (("qr_vmap", lambda: (linalg_utils.qr_vmap(jnp.array(Au)), None)),
                              ("qr_vmap_uhf", lambda: (None, linalg_utils.qr_vmap_uhf([jnp.array(Au), jnp.array(Ad)]))),
-                             ("restricted.orthonormalize_walkers", lambda: ((propagation.propagator_restricted(n_walkers=nwk).orthonormalize_walkers({"walkers": jnp.array(Au)})["walkers"], None), None))):
+                             ("restricted.orthonormalize_walkers", lambda: ((propagation.propagator_restricted(n_walkers=nwk).orthonormalize_walkers({"walkers": jnp.array(Au), "overlaps": jnp.ones(nwk) + 0.0j, "weights": jnp.ones(nwk)})["walkers"], None), None))):
                 r1, r2 = fn()
                 pairs = []
                 if r1 is not None:
